@@ -78,7 +78,7 @@ def conc_check(lines, rep):
 def run(tier, seed, replay):
     rep = Report("C07", tier, seed)
     thorough = tier == "thorough"
-    ok, info = proof_stage(rep, MODULE, thorough=thorough)
+    ok, info = proof_stage(rep, MODULE, thorough=thorough, also=("KyroModel.Theorems.C07Conc",))
     bok, blog, bsecs = cargo_build()
     if not bok:
         rep.violation(rep.write_replay("harness_build.log", blog[-4000:]), no_input=True)
